@@ -1,5 +1,6 @@
 import WowVerif.Model.C16Blp
 import WowVerif.Lemmas.C16Header
+import WowVerif.Lemmas.C16HeaderNormal
 /-!
 C16 — BLP encode→parse is exact; lossless encodings preserve pixels.
 
@@ -346,6 +347,11 @@ theorem header_roundtrip (h : BlpH.Hdr) (hn : BlpH.Normal h) (rest : Bytes) :
     28 / 156 / 148 bytes -/
 theorem header_size (h : BlpH.Hdr) (hn : BlpH.Normal h) (bs : Bytes) (hw : BlpH.write h = .ok bs) :
     bs.length = BlpH.size h.version := BlpH.write_size h hn bs hw
+
+/-- THE PARSER RETURNS NORMAL FORMS ONLY: whatever parse_header accepts has a known version and content tag, a locator
+    exactly when the version has one, known compression / alpha type (BLP2) or an alpha depth that re-normalises to itself
+    (BLP0/1) — an unknown tag or depth in the file never survives into the structure that is encoded again -/
+theorem header_parse_normal (bs : Bytes) (h : BlpH.Hdr) (hp : BlpH.parse bs = .ok h) : BlpH.Shape h := BlpH.parse_shape bs h hp
 
 /-! ## non-vacuity -/
 example : chain 8 2 true = [(8, 2), (4, 1), (2, 1), (1, 1)] := by decide
